@@ -401,6 +401,12 @@ def c16(tier):
         cfgs = [covers[klass(d) + ":extra"][int(t[4:])] if t.startswith("CFG:") else e1.cfg_from_text(t, zz=False) for t in covers[klass(d)]]
         seen_cfg = set()
         cfgs = [c for c in cfgs if not (c.key() in seen_cfg or seen_cfg.add(c.key()))]
+        if d.name != "E" or (tier == "quick" and ei >= 2):
+            # secondary enums (other reprs, unusual enum names): the full sets in three mode assignments + table_inline, every scope
+            cfgs = [catalogue.full_config(d.gapless, m) for m in
+                    ({}, {"as_str": "table", "from_str": "table", "FromStr": "table", "iter": "table"},
+                     {"as_str": "match", "from_str": "match", "FromStr": "match", "iter": "next_and_back"})]
+            cfgs.append(Config([("iter", {"mode": "table_inline"}), "names", "Debug", "TryFrom", "FromStr", "as_str"]))
         for ci, cfg in enumerate(cfgs):
             for si, (lab, inner, items, nostd) in enumerate(scopes):
                 sid = "e%d_c%03d_s%02d" % (ei, ci, si)
